@@ -432,6 +432,251 @@ static std::string op_bulk(const toks_t& t)
 }
 #endif
 
+// --------------------------------------------------------------------- C03 / C04
+#ifdef PART_CHAIN
+using rep_t = typename Cfg::rep_t;
+static rep_t g_ret_rep = 0;        // what the guest returns / passes
+static uintptr_t g_cb_seen = 0;    // address the callback received
+static rep_t g_guest_seen = 0;     // representation the guest observed
+
+// application prototypes (never defined) and their guest implementations
+char* retp();
+static rep_t guest_retp() { return g_ret_rep; }
+void takep(char*);
+static void guest_takep(rep_t r) { g_guest_seen = r; }
+void callp(void (*)(char*));
+static void guest_callp(rep_t cb) { Sbx::template guest_call_callback<void, rep_t>(cb, g_ret_rep); }
+char* cbretp(char* (*)());
+static rep_t guest_cbretp(rep_t cb) { g_guest_seen = Sbx::template guest_call_callback<rep_t>(cb); return 0; }
+
+static void app_cb_takes_ptr(sandbox_t&, tainted_v<char*> p)
+{
+  g_cb_seen = reinterpret_cast<uintptr_t>(p.UNSAFE_unverified());
+}
+static uintptr_t g_cb_ret_addr = 0;
+static tainted_v<char*> app_cb_returns_ptr(sandbox_t& s)
+{
+  tainted_v<char*> r = nullptr;
+  if (g_cb_ret_addr) r.assign_raw_pointer(s, reinterpret_cast<char*>(g_cb_ret_addr));
+  return r;
+}
+
+static bool committed(uintptr_t a, size_t n)
+{
+  for (int i = 0; i < 2; i++) {
+    uintptr_t b = slot_base(i);
+    if (a >= b && a + n <= b + Cfg::committed - 2 * 4096) return true;
+    if (a >= b + Cfg::region_size - 4096 && a + n <= b + Cfg::region_size) return true;
+  }
+  return false;
+}
+
+struct uncommitted {};
+
+// chain <start> <op>...
+static std::string op_chain(const toks_t& t)
+{
+  uintptr_t start = parse_u64(t[1]);
+  tainted_v<char*> p = mkptr<char>(start);
+  for (size_t k = 2; k < t.size(); k++) {
+    toks_t o = split(t[k], ':');
+    const std::string& c = o[0];
+    if (c == "a" || c == "i") {
+      bool sub = (c == "a" && o[1] == "1");
+      long long n = parse_i64(c == "a" ? o[2] : o[1]);
+      const std::string& pt = (c == "a" ? o[3] : o[2]);
+      bool isidx = (c == "i");
+      with_ptee(pt, [&](auto tg) {
+        using T = typename decltype(tg)::type;
+        auto q = rlbox::sandbox_reinterpret_cast<T*>(p);
+        if (isidx) {
+          if constexpr (std::is_class_v<T>) q = rlbox::sandbox_reinterpret_cast<T*>(&(q[n].a));
+          else q = rlbox::sandbox_reinterpret_cast<T*>(&q[n]);
+        } else if (sub) q = q - n;
+        else q = q + n;
+        p = rlbox::sandbox_reinterpret_cast<char*>(q);
+      });
+    } else if (c == "f") {
+      auto q = rlbox::sandbox_reinterpret_cast<PS*>(p);
+      if (o[1] == "a") p = rlbox::sandbox_reinterpret_cast<char*>(&(q->a));
+      else if (o[1] == "b") p = rlbox::sandbox_reinterpret_cast<char*>(&(q->b));
+      else if (o[1] == "c") p = rlbox::sandbox_reinterpret_cast<char*>(&(q->c));
+      else if (o[1] == "d") p = rlbox::sandbox_reinterpret_cast<char*>(&(q->d));
+      else p = rlbox::sandbox_reinterpret_cast<char*>(&(q->e));
+    } else if (c == "e") {
+      auto q = rlbox::sandbox_reinterpret_cast<int(*)[4]>(p);
+      p = rlbox::sandbox_reinterpret_cast<char*>(&((*q)[parse_u64(o[1])]));
+    } else if (c == "c") {
+      auto op = p.to_opaque();
+      auto q = rlbox::sandbox_reinterpret_cast<long*>(rlbox::from_opaque(op));
+      auto q2 = rlbox::sandbox_const_cast<const long*>(q);
+      tvol_v<const long>& ref = *q2;
+      p = rlbox::sandbox_const_cast<char*>(rlbox::sandbox_reinterpret_cast<const char*>(&ref));
+    } else if (c == "l") {
+      // the adversarial guest stores the bits <rep> in the pointer cell p designates
+      rep_t rep = static_cast<rep_t>(parse_u64(o[1]));
+      auto a = reinterpret_cast<uintptr_t>(p.UNSAFE_unverified());
+      if (a != 0) {
+        if (!committed(a, sizeof(rep_t))) throw uncommitted{};
+        std::memcpy(reinterpret_cast<void*>(a), &rep, sizeof(rep));
+      }
+      auto pp = rlbox::sandbox_reinterpret_cast<char**>(p);
+      tainted_v<char*> q = *pp;
+      p = q;
+    } else if (c == "g") {
+      g_ret_rep = static_cast<rep_t>(parse_u64(o[1]));
+      p = sbA.invoke_sandbox_function(retp);
+    } else if (c == "cb") {
+      g_ret_rep = static_cast<rep_t>(parse_u64(o[1]));
+      auto cb = sbA.register_callback(app_cb_takes_ptr);
+      sbA.invoke_sandbox_function(callp, cb);
+      p = mkptr<char>(0);
+      // the callback's tainted argument, re-wrapped (its address was recorded)
+      if (g_cb_seen) {
+        // bypass the membership check on purpose: we report what the callback saw
+        return "OK " + std::to_string(g_cb_seen);
+      }
+    } else if (c == "m") {
+      auto impl = sbA.get_sandbox_impl();
+      impl->malloc_override = true;
+      impl->malloc_override_val = static_cast<rep_t>(parse_u64(o[3]));
+      uint32_t count = static_cast<uint32_t>(parse_u64(o[1]));
+      if (o[2] == "char") p = sbA.malloc_in_sandbox<char>(count);
+      else if (o[2] == "int") p = rlbox::sandbox_reinterpret_cast<char*>(sbA.malloc_in_sandbox<int>(count));
+      else p = rlbox::sandbox_reinterpret_cast<char*>(sbA.malloc_in_sandbox<PS>(count));
+      impl->malloc_override = false;
+    } else if (c == "r") {
+      p.assign_raw_pointer(sbA, reinterpret_cast<char*>(parse_u64(o[1])));
+    } else if (c == "u") {
+      p = sbA.UNSAFE_accept_pointer(reinterpret_cast<char*>(parse_u64(o[1])));
+    } else if (c == "n") {
+      p = nullptr;
+    } else {
+      return "HARNESS-ERROR chain op " + c;
+    }
+  }
+  return "OK " + addr_s((const void*)p.UNSAFE_unverified());
+}
+
+// xlate <path> <dir> <value> [<cell/example address>]
+static std::string op_xlate(const toks_t& t)
+{
+  const std::string& path = t[1];
+  bool toapp = (t[2] == "toapp");
+  uint64_t v = parse_u64(t[3]);
+  uintptr_t ex = t.size() > 4 ? parse_u64(t[4]) : 0;
+  sandbox_t& s = ex ? sb(ex) : sbA;
+  if (path == "ctx") {
+    if (toapp) return "OK " + addr_s((const void*)s.template get_unsandboxed_pointer<char*>(static_cast<rep_t>(v)));
+    return "OK " + std::to_string(s.template get_sandboxed_pointer<char*>(reinterpret_cast<const void*>(v)));
+  }
+  if (path == "noctx") {
+    if (toapp) return "OK " + addr_s((const void*)sandbox_t::template get_unsandboxed_pointer_no_ctx<char*>(static_cast<rep_t>(v), reinterpret_cast<const void*>(ex)));
+    return "OK " + std::to_string(sandbox_t::template get_sandboxed_pointer_no_ctx<char*>(reinterpret_cast<const void*>(v), reinterpret_cast<const void*>(ex)));
+  }
+  if (path == "cell" || path == "arr" || path == "field") {
+    // the cell lives at address ex (in sandbox A or B)
+    if (!committed(ex, 64)) throw uncommitted{};
+    uintptr_t celladdr = ex;
+    if (path == "cell") {
+      auto pp = mkptr<char*>(ex);
+      if (toapp) {
+        rep_t rep = static_cast<rep_t>(v);
+        std::memcpy(reinterpret_cast<void*>(celladdr), &rep, sizeof(rep));
+        tainted_v<char*> q = *pp;
+        return "OK " + addr_s((const void*)q.UNSAFE_unverified());
+      }
+      tainted_v<char*> q = nullptr;
+      if (v) q = mkptr<char>(v);
+      std::memset(reinterpret_cast<void*>(celladdr), 0xAB, 16);
+      *pp = q;
+      rep_t rep; std::memcpy(&rep, reinterpret_cast<void*>(celladdr), sizeof(rep));
+      return "OK " + std::to_string(rep);
+    }
+    if (path == "arr") {
+      auto pa = mkptr<char*[3]>(ex);
+      celladdr = ex + 2 * sizeof(rep_t);   // element 2
+      if (toapp) {
+        rep_t rep = static_cast<rep_t>(v);
+        std::memset(reinterpret_cast<void*>(ex), 0, 3 * sizeof(rep_t));
+        std::memcpy(reinterpret_cast<void*>(celladdr), &rep, sizeof(rep));
+        tainted_v<char*[3]> arr = *pa;
+        return "OK " + addr_s((const void*)arr[2].UNSAFE_unverified()) + " e0=" + addr_s((const void*)arr[0].UNSAFE_unverified());
+      }
+      tainted_v<char*[3]> arr;
+      arr[0] = nullptr; arr[1] = nullptr; arr[2] = nullptr;
+      if (v) arr[2] = mkptr<char>(v);
+      std::memset(reinterpret_cast<void*>(ex), 0xAB, 32);
+      *pa = arr;
+      rep_t reps[3]; std::memcpy(reps, reinterpret_cast<void*>(ex), sizeof(reps));
+      return "OK " + std::to_string(reps[2]) + " e0=" + std::to_string(reps[0]);
+    }
+    // struct field PS::e
+    auto ps = mkptr<PS>(ex);
+    celladdr = ex + 24;
+    if (toapp) {
+      rep_t rep = static_cast<rep_t>(v);
+      std::memset(reinterpret_cast<void*>(ex), 0, 32);
+      std::memcpy(reinterpret_cast<void*>(celladdr), &rep, sizeof(rep));
+      tainted_v<PS> whole = *ps;
+      tainted_v<int*> viafield = ps->e;
+      return "OK " + addr_s((const void*)whole.e.UNSAFE_unverified()) + " field=" + addr_s((const void*)viafield.UNSAFE_unverified());
+    }
+    tainted_v<PS> whole;
+    whole.a = 1; whole.b = 2; whole.c = 3; whole.d = 4; whole.e = nullptr;
+    if (v) whole.e = mkptr<int>(v);
+    std::memset(reinterpret_cast<void*>(ex), 0xAB, 32);
+    *ps = whole;
+    rep_t rep; std::memcpy(&rep, reinterpret_cast<void*>(celladdr), sizeof(rep));
+    return "OK " + std::to_string(rep);
+  }
+  if (path == "ret") { g_ret_rep = static_cast<rep_t>(v); auto r = sbA.invoke_sandbox_function(retp); return "OK " + addr_s((const void*)r.UNSAFE_unverified()); }
+  if (path == "arg") { auto q = mkptr<char>(v); g_guest_seen = 0xDEAD; sbA.invoke_sandbox_function(takep, q); return "OK " + std::to_string(g_guest_seen); }
+  if (path == "argnull") { g_guest_seen = 0xDEAD; sbA.invoke_sandbox_function(takep, nullptr); return "OK " + std::to_string(g_guest_seen); }
+  if (path == "cbarg") {
+    g_ret_rep = static_cast<rep_t>(v); g_cb_seen = 0xDEAD;
+    auto cb = sbA.register_callback(app_cb_takes_ptr);
+    sbA.invoke_sandbox_function(callp, cb);
+    return "OK " + std::to_string(g_cb_seen);
+  }
+  if (path == "cbret") {
+    g_cb_ret_addr = v; g_guest_seen = 0xDEAD;
+    auto cb = sbA.register_callback(app_cb_returns_ptr);
+    sbA.invoke_sandbox_function(cbretp, cb);
+    return "OK " + std::to_string(g_guest_seen);
+  }
+  if (path == "free") {
+    auto q = mkptr<char>(v);
+    auto impl = sbA.get_sandbox_impl();
+    impl->freed.clear();
+    sbA.free_in_sandbox(q);
+    return "OK " + (impl->freed.empty() ? std::string("nofree") : std::to_string(impl->freed[0]));
+  }
+  return "HARNESS-ERROR xlate";
+}
+
+// rawptr <tainted|tvol|accept> <addr>   (C02 run-time half)
+static std::string op_rawptr(const toks_t& t)
+{
+  uintptr_t a = parse_u64(t[2]);
+  if (t[1] == "tainted") {
+    tainted_v<char*> p = nullptr;
+    p.assign_raw_pointer(sbA, reinterpret_cast<char*>(a));
+    return "OK " + addr_s((const void*)p.UNSAFE_unverified());
+  }
+  if (t[1] == "accept") {
+    auto p = sbA.UNSAFE_accept_pointer(reinterpret_cast<char*>(a));
+    return "OK " + addr_s((const void*)p.UNSAFE_unverified());
+  }
+  auto pp = sbA.malloc_in_sandbox<char*>();
+  auto cell = reinterpret_cast<uintptr_t>(pp.UNSAFE_unverified());
+  std::memset(reinterpret_cast<void*>(cell), 0xAB, 16);
+  (*pp).assign_raw_pointer(sbA, reinterpret_cast<char*>(a));
+  rep_t rep; std::memcpy(&rep, reinterpret_cast<void*>(cell), sizeof(rep));
+  return "OK " + std::to_string(rep);
+}
+#endif
+
 static std::string run_case(const toks_t& t)
 {
   if (t.empty()) return "HARNESS-ERROR empty";
@@ -448,6 +693,15 @@ static std::string run_case(const toks_t& t)
 #endif
 #ifdef PART_BULK
   return op_bulk(t);
+#endif
+#ifdef PART_CHAIN
+  try {
+    if (op.rfind("chain", 0) == 0) return op_chain(t);
+    if (op.rfind("xlate", 0) == 0) return op_xlate(t);
+    if (op.rfind("rawptr", 0) == 0) return op_rawptr(t);
+  } catch (const uncommitted&) {
+    return "UNCOMMITTED";
+  }
 #endif
   return "HARNESS-ERROR op";
 }
